@@ -12,6 +12,9 @@ META = {
     "level": "Decides structural clauses R1-R5 that are necessary conditions of PMS version ordering: the three suffix tables agree and are ordered alpha<beta<pre<rc<none<p with omitted numbers coerced to 0; every cmp(a,b) in ver_cmp takes a from version 1 and b from version 2; each CPV comparison method uses its own operator on ver_cmp(self…, other…) and strict fallbacks of the same direction; the version-operator table maps each operator to exactly its sign set and match() compares package-first; the first dotted component can never take the string-comparison branch. Does NOT decide that ver_cmp equals the PMS algorithm on all version strings nor transitivity.",
     "note": "assumes snakeoil.compatibility.cmp(a,b) is the three-way comparison (trusted base); regex facts come from the stdlib regex parser applied to the literal patterns",
 }
+META["technique"] += "; " + 'effect analysis (no in-place write to shared objects) on ver_cmp and the comparison methods'
+META["level"] += " Added after the second round of independent changes: " + '(R6) ver_cmp, the CPV/Revision comparison methods and _VersionMatch.match write in place only to objects they created themselves (no memoised list, parameter or module table is edited by a comparison).'
+META["technique"] += "; " + 'generic pack G on the anchored files (optional-flag shift, closures outliving a loop iteration, single-pass iterables consumed twice, %-templates built from data, in-place writes to class-level / memoised objects, generators mutating what they yielded, memo keys that are projections)'
 
 PMS_SUFFIXES = ("alpha", "beta", "pre", "rc", "p")
 OPS = {"__lt__": ast.Lt, "__le__": ast.LtE, "__gt__": ast.Gt, "__ge__": ast.GtE, "__eq__": ast.Eq}
